@@ -4,7 +4,7 @@
    scales (product of the factors along the chain of definitions) is
    Model/Registry + C15/C20. *)
 From Coq Require Import ZArith QArith Qabs List Bool.
-From QV Require Import Model.Num Model.Rounding Model.Quantity Model.Dim Model.Registry
+From QV Require Import Gen.QuantityImpl Proofs.GenQuantityEq Model.Num Model.Rounding Model.Quantity Model.Dim Model.Registry
      Proofs.QuantityProofs Proofs.C13Proofs Proofs.C01Proofs Proofs.RegistryProofs
      Proofs.DirectoryProofs Proofs.C02Proofs Proofs.ViewInv.
 
@@ -99,6 +99,21 @@ Theorem C01_in_every_reachable_directory : forall dm s ce a u v eu ev c,
             q_amt r == a * (eu / ev) /\ q_amt r * ev == a * eu.
 Proof. exact convert_on_directory. Qed.
 Print Assumptions C01_in_every_reachable_directory.
+
+(* THE MODEL IS THE CODE: the functions below are re-translated from
+   src/quantity/__init__.py on every run (Gen/QuantityImpl.v, fail-closed ast
+   translator translate/qlayer.py) and are equal, on all inputs, to the model
+   functions the theorems above are about *)
+Theorem C01_model_is_translated_code : forall ce dm q to u v,
+  convert_impl ce dm q to = convert ce dm q to /\
+  equiv_amount_impl ce q to = equiv_amount ce q to /\
+  get_factor_impl u v = get_factor u v /\
+  unit_eq_impl u v = unit_eq u v.
+Proof.
+  intros. split; [apply convert_impl_eq|]. split; [apply equiv_amount_impl_eq|].
+  split; [apply get_factor_impl_eq | apply unit_eq_impl_eq].
+Qed.
+Print Assumptions C01_model_is_translated_code.
 
 (* non-vacuity: mi -> km -> in on concrete views *)
 Definition ex_mi := mkUnit 1 3 true (Some (1609344 # 1000)) None.
